@@ -8,7 +8,8 @@ Extraction "../ocaml/c16/model.ml"
   Z.add Z.mul Z.sub Z.div_eucl Z.compare Z.of_nat Z.to_nat
   gen_worker_prog gen_main_prog old_worker_prog gen_exec_stream_per_job gen_exec_collect gen_exec_job
   slice local_read sort_by_offset first_failing
-  init step run main_done all_exited measure
+  init step run main_done all_exited measure w_idle
+  gen_fetch_site memo_get reader_query reader_session
   gen_stream_read gen_fetch_workers http_error stream_read stream_fails
   pinit pstep prun pabs pmeasure
   xinit xstep xrun xmeasure.
